@@ -290,14 +290,14 @@ Section Churn.
     change (reserve_rehash_full_capacity (zn (mask t))) with (z_cap (mask t)).
     destruct (reserve_rehash_in_place (items t + 1) (z_cap (mask t))) eqn:Eip.
     - (* rehash in place: same block *)
-      unfold reserve_rehash_in_place in Eip. apply Z.leb_le in Eip.
+      rewrite reserve_rehash_in_place_char in Eip by lia. apply Z.leb_le in Eip.
       assert (Hm : mask t <> 0%nat).
       { intros C. rewrite C in Eip. change (z_cap 0 / 2) with 0 in Eip. lia. }
       destruct (rehash_in_place_safe B T HW HB needs_drop hasher t Hsafe Hm)
         as (t1 & evs1 & unw1 & E1 & _ & Em & _).
       rewrite E1. cbn [bind]. intros E. inversion E; subst. left. exact Em.
     - (* resize *)
-      pose proof Eip as Hhalf. unfold reserve_rehash_in_place in Hhalf. apply Z.leb_gt in Hhalf.
+      pose proof Eip as Hhalf. rewrite reserve_rehash_in_place_char in Hhalf by lia. apply Z.leb_gt in Hhalf.
       assert (Etgt : reserve_rehash_resize_target (items t + 1) (z_cap (mask t))
                      = Z.max (items t + 1) (z_cap (mask t) + 1)).
       { unfold reserve_rehash_resize_target, wadd. rewrite wrap_small; [reflexivity|].
